@@ -19,7 +19,7 @@ func init() {
 		LevelText:   "Necessary conditions visible in the code's shape, decided for all inputs: paging arithmetic can neither overflow on the MaxInt64 'unbounded' sentinel nor see a negative skip; absent/negative skip and limit are replaced by 0 / unbounded before use on every path; the running total is incremented under the row-match condition only, never under a paging comparison, and the counting loop uses the unpaged step; each comparator returns nil-first, sign-of-ordering, negated iff descending for all 24 abstract cases; the comparator list always ends with id ascending; the query listener pops limit, skip, sort, predicate in that order and accepts only integer constants for skip/limit. Not decided: that llrb orders correctly and that the two scan strategies agree on real data. The step that advances the cursor inside the counting loop reads no paging value (found by role, not by name); the paging counters advance only for rows that matched; fixed-width sort keys are decoded with their stored width and sign.",
 		LevelNote:   "Trusted: go/types, x/tools SSA, llrb ordering, the DECIDE interpreter in checker/decide.go (rejects anything it cannot evaluate).",
 		DesignRef:   "DESIGN.md C02",
-		Explanation: "Sites: every ADD/SUB/MUL with a targetLimit/targetOffset operand; every store to a count field in the scan functions; both setPaging bodies; the five Compare methods; newRowComparator; ExitSkipExpr/ExitLimitExpr/ExitQueryStmt.",
+		Explanation: "Sites: every ADD/SUB/MUL with a targetLimit/targetOffset operand; every store to a count field in the scan functions; both paging normalisations (wherever they are expanded); the five Compare methods; newRowComparator; ExitSkipExpr/ExitLimitExpr/ExitQueryStmt.",
 		Trusted:     []string{"go/types", "golang.org/x/tools/go/ssa v0.29.0", "github.com/biogo/store/llrb"},
 		Rules:       rulesC02,
 		Controls: []controlExpect{
@@ -139,7 +139,7 @@ func rulePagingArith(c *Ctx, rule, pkg string) {
 				pos := p.Pos(bo.Pos())
 				// MaxInt64 - targetOffset: safe iff the offset is clamped non-negative (C02.DEFAULTS)
 				if bo.Op == token.SUB && isMaxInt64(bo.X) && yo {
-					c.OK(rule, construct, pos, "MaxInt64 - targetOffset cannot overflow because targetOffset is clamped to >= 0 by setPaging (DEFAULTS rule)")
+					c.OK(rule, construct, pos, "MaxInt64 - targetOffset cannot overflow because targetOffset is clamped to >= 0 by the paging normalisation (DEFAULTS rule)")
 					continue
 				}
 				// targetOffset + targetLimit under  targetLimit <= MaxInt64 - targetOffset
@@ -196,104 +196,29 @@ func noPathToAvoiding(fn *ssa.Function, target ssa.Instruction, avoid func(ssa.I
 
 func rulePagingDefaults(c *Ctx, rule, pkg string) {
 	p := c.P
-	fn := p.SSAFunc(p.Method(pkg, "scanner", "setPaging"))
-	name := FnName(fn)
-	c.Analysed(name)
 	limitF, offsetF := pagingFields(c, pkg)
-	q := fn.Params[1]
-	getterOf := func(v ssa.Value, name string) bool {
-		call, ok := v.(*ssa.Call)
-		return ok && call.Call.IsInvoke() && call.Call.Method.Name() == name && call.Call.Value == ssa.Value(q)
-	}
-	for _, w := range []struct {
-		get, set string
-		fld      *types.Var
-		isDef    func(v ssa.Value) bool
-		what     string
-	}{
-		{"GetSkip", "SetSkip", offsetF, func(v ssa.Value) bool {
-			k, ok := v.(*ssa.Const)
-			return ok && k.Value != nil && constant.Sign(k.Value) == 0
-		}, "skip"},
-		{"GetLimit", "SetLimit", limitF, isMaxInt64, "limit"},
-	} {
-		isSet := func(in ssa.Instruction) bool {
-			call, ok := in.(ssa.CallInstruction)
-			if !ok || !call.Common().IsInvoke() || call.Common().Method.Name() != w.set || call.Common().Value != ssa.Value(q) {
-				return false
-			}
-			return w.isDef(call.Common().Args[0])
-		}
-		// the field store
-		var store *ssa.Store
+	// every function that assigns a paging target (the helper that normalises skip/limit is expanded into
+	// its callers by the normalisation pass; a target may also be given a constant)
+	nFns := 0
+	for _, fn := range c.prodFuncs(pkg) {
+		var stores []*ssa.Store
 		for _, b := range fn.Blocks {
 			for _, in := range b.Instrs {
 				if st, ok := in.(*ssa.Store); ok {
-					if f, _ := fieldOfAddr(st.Addr); sameVar(f, w.fld) {
-						store = st
+					if f, _ := fieldOfAddr(st.Addr); sameVar(f, limitF) || sameVar(f, offsetF) {
+						stores = append(stores, st)
 					}
 				}
 			}
 		}
-		construct := name + ": " + w.what
-		if store == nil {
-			c.Bad(rule, construct, p.Pos(fn.Pos()), "no assignment of the "+w.what+" target found")
+		if len(stores) == 0 {
 			continue
 		}
-		// stored value is *query.GetX()
-		okVal := false
-		if u, ok := store.Val.(*ssa.UnOp); ok && u.Op == token.MUL && getterOf(u.X, w.get) {
-			okVal = true
-		}
-		c.Check(okVal, rule, construct+": source", p.Pos(store.Pos()), "the target is read back from query."+w.get+"() after defaults were applied", "the paging target is not taken from query."+w.get+"()")
-		// every path to the store passes SetX(default) unless it passed the edges "non-nil" and "not negative"
-		nonNegEdge := func(from, to *ssa.BasicBlock) bool {
-			fi := ComputeFacts(fn)
-			for f := range fi.edgeFacts(from, to) {
-				if f.Kind != "true" {
-					continue
-				}
-				bo, ok := f.V.(*ssa.BinOp)
-				if !ok {
-					continue
-				}
-				u, ok := bo.X.(*ssa.UnOp)
-				if !ok || u.Op != token.MUL || !getterOf(u.X, w.get) {
-					continue
-				}
-				k, ok := bo.Y.(*ssa.Const)
-				if !ok || k.Value == nil || constant.Sign(k.Value) != 0 {
-					continue
-				}
-				if (bo.Op == token.LSS && !f.Pol) || (bo.Op == token.GEQ && f.Pol) {
-					return true
-				}
-			}
-			return false
-		}
-		ok := noPathToAvoiding(fn, store, isSet, nonNegEdge)
-		dflt := map[string]string{"skip": "0", "limit": "MaxInt64 (unbounded)"}[w.what]
-		c.Check(ok, rule, construct+": absent or negative ⇒ default", p.Pos(store.Pos()),
-			"every path to the assignment either sets the default "+dflt+" or has established that the value is present and not negative",
-			"a path reaches the assignment with an absent or negative "+w.what+" without replacing it by "+dflt)
-		// dereferences of GetX() results: preceded by SetX(default) or by a non-nil test of a GetX() result
-		nonNilEdge := func(from, to *ssa.BasicBlock) bool {
-			fi := ComputeFacts(fn)
-			for f := range fi.edgeFacts(from, to) {
-				if f.Kind == "nonnil" && f.Pol && getterOf(f.V, w.get) {
-					return true
-				}
-			}
-			return false
-		}
-		for _, b := range fn.Blocks {
-			for _, in := range b.Instrs {
-				if u, ok := in.(*ssa.UnOp); ok && u.Op == token.MUL && getterOf(u.X, w.get) {
-					ok := noPathToAvoiding(fn, u, isSet, nonNilEdge)
-					c.Check(ok, rule, construct+": dereference", p.Pos(u.Pos()), "*query."+w.get+"() is reached only after the default was set or a non-nil test", "*query."+w.get+"() can be reached with a nil result")
-				}
-			}
-		}
+		nFns++
+		rulePagingDefaultsFn(c, rule, fn, stores, limitF, offsetF)
+	}
+	if nFns == 0 {
+		c.Undecided(rule, pkg+": paging targets", "-", "no function assigns the paging targets")
 	}
 	// the getter/setter pair stores and returns the same field (ast.queryNode)
 	for _, pr := range []struct{ get, set, fld string }{{"GetSkip", "SetSkip", "Skip"}, {"GetLimit", "SetLimit", "Limit"}} {
@@ -329,6 +254,105 @@ func rulePagingDefaults(c *Ctx, rule, pkg string) {
 }
 
 // ---- COUNT ---------------------------------------------------------------------------------------
+
+func rulePagingDefaultsFn(c *Ctx, rule string, fn *ssa.Function, stores []*ssa.Store, limitF, offsetF *types.Var) {
+	p := c.P
+	name := FnName(fn)
+	c.Analysed(name)
+	fi := factsOf(fn)
+	for _, w := range []struct {
+		get, set string
+		fld      *types.Var
+		isDef    func(v ssa.Value) bool
+		what     string
+	}{
+		{"GetSkip", "SetSkip", offsetF, func(v ssa.Value) bool {
+			k, ok := v.(*ssa.Const)
+			return ok && k.Value != nil && constant.Sign(k.Value) == 0
+		}, "skip"},
+		{"GetLimit", "SetLimit", limitF, isMaxInt64, "limit"},
+	} {
+		dflt := map[string]string{"skip": "0", "limit": "MaxInt64 (unbounded)"}[w.what]
+		for _, store := range stores {
+			if f, _ := fieldOfAddr(store.Addr); !sameVar(f, w.fld) {
+				continue
+			}
+			construct := name + ": " + w.what
+			// a constant target: must be the default itself
+			if _, isK := store.Val.(*ssa.Const); isK {
+				c.Check(w.isDef(store.Val), rule, construct+": constant", p.Pos(store.Pos()), "a paging target given as a constant is the default "+dflt, "the paging target is set to a constant other than the default "+dflt)
+				continue
+			}
+			// stored value is *q.GetX() for some query q
+			var q ssa.Value
+			if u, ok := store.Val.(*ssa.UnOp); ok && u.Op == token.MUL {
+				if call, isCall := u.X.(*ssa.Call); isCall && call.Call.IsInvoke() && call.Call.Method.Name() == w.get {
+					q = call.Call.Value
+				}
+			}
+			c.Check(q != nil, rule, construct+": source", p.Pos(store.Pos()), "the target is read back from query."+w.get+"() after defaults were applied", "the paging target is not taken from query."+w.get+"()")
+			if q == nil {
+				continue
+			}
+			getterOf := func(v ssa.Value, name string) bool {
+				call, ok := v.(*ssa.Call)
+				return ok && call.Call.IsInvoke() && call.Call.Method.Name() == name && call.Call.Value == q
+			}
+			isSet := func(in ssa.Instruction) bool {
+				call, ok := in.(ssa.CallInstruction)
+				if !ok || !call.Common().IsInvoke() || call.Common().Method.Name() != w.set || call.Common().Value != q {
+					return false
+				}
+				return w.isDef(call.Common().Args[0])
+			}
+			// every path to the store passes SetX(default) unless it passed the edges "non-nil" and "not negative"
+			nonNegEdge := func(from, to *ssa.BasicBlock) bool {
+				for f := range fi.edgeFacts(from, to) {
+					if f.Kind != "true" {
+						continue
+					}
+					bo, ok := f.V.(*ssa.BinOp)
+					if !ok {
+						continue
+					}
+					u, ok := bo.X.(*ssa.UnOp)
+					if !ok || u.Op != token.MUL || !getterOf(u.X, w.get) {
+						continue
+					}
+					k, ok := bo.Y.(*ssa.Const)
+					if !ok || k.Value == nil || constant.Sign(k.Value) != 0 {
+						continue
+					}
+					if (bo.Op == token.LSS && !f.Pol) || (bo.Op == token.GEQ && f.Pol) {
+						return true
+					}
+				}
+				return false
+			}
+			ok := noPathToAvoiding(fn, store, isSet, nonNegEdge)
+			c.Check(ok, rule, construct+": absent or negative ⇒ default", p.Pos(store.Pos()),
+				"every path to the assignment either sets the default "+dflt+" or has established that the value is present and not negative",
+				"a path reaches the assignment with an absent or negative "+w.what+" without replacing it by "+dflt)
+			// dereferences of GetX() results: preceded by SetX(default) or by a non-nil test of a GetX() result
+			nonNilEdge := func(from, to *ssa.BasicBlock) bool {
+				for f := range fi.edgeFacts(from, to) {
+					if f.Kind == "nonnil" && f.Pol && getterOf(f.V, w.get) {
+						return true
+					}
+				}
+				return false
+			}
+			for _, b := range fn.Blocks {
+				for _, in := range b.Instrs {
+					if u, ok := in.(*ssa.UnOp); ok && u.Op == token.MUL && getterOf(u.X, w.get) {
+						ok := noPathToAvoiding(fn, u, isSet, nonNilEdge)
+						c.Check(ok, rule, construct+": dereference", p.Pos(u.Pos()), "*query."+w.get+"() is reached only after the default was set or a non-nil test", "*query."+w.get+"() can be reached with a nil result")
+					}
+				}
+			}
+		}
+	}
+}
 
 func ruleCount(c *Ctx, rule, pkg string) {
 	p := c.P
